@@ -74,9 +74,13 @@ fn sys_f(In(x): In<u32>, mut local: Local<u32>, q: Query<(), Added<Marker>>, mut
 {
     body(0, x, &mut local, q.iter().count() as u32, &mut c)
 }
-fn sys_g(In(x): In<u32>, mut local: Local<u32>, q: Query<(), Added<Marker>>, mut c: Commands) -> u32
+/// Second ordinary flavour: its deferred parameter (`Commands`) is nested in a `ParamSet` (Bevy 0.15 does not report
+/// such a system as `has_deferred()`; its commands must be applied on return all the same).
+fn sys_g(In(x): In<u32>, mut local: Local<u32>, mut set: ParamSet<(Commands, Query<(), Added<Marker>>)>) -> u32
 {
-    body(1, x, &mut local, q.iter().count() as u32, &mut c)
+    let added = set.p1().iter().count() as u32;
+    let mut c = set.p0();
+    body(1, x, &mut local, added, &mut c)
 }
 /// Exclusive flavour: its parameter state (`Local`, `QueryState`) is rebuilt by Bevy whenever the system is initialised
 /// again, and its commands go through the world's own queue.
